@@ -11,7 +11,7 @@ from sim.history import ZygoteFarm
 
 FMTS = ["READ_STATEMENTS", "EXEC_CLASSES"]
 FAULT_EXC = ["MemoryError", "RecursionError", "ValueError", "KeyError"]
-COMPILE_OPS = ("stmt", "insn", "fresh", "loaded_insn", "fresh2")
+COMPILE_OPS = ("stmt", "insn", "fresh", "loaded_insn", "fresh2", "compile_parsed")
 
 SUB_CATALOGUE = [
     {"name": "vf_add3", "ret": "int32_t", "params": ["int32_t a", "int32_t b"], "body": "{ return a + b + 3; }"},
@@ -22,6 +22,13 @@ SUB_CATALOGUE = [
     {"name": "vf_st", "ret": "void", "params": ["uint32_t addr", "int32_t v"], "body": "{ EA = addr; mem_store_u32(EA, v); }"},
     {"name": "vf_ldx", "ret": "int32_t", "params": ["uint32_t addr"], "body": "{ EA = addr; int32_t x = mem_load_s32(EA); return x; }"},
 ]
+# macros re-registered through the public API with another RzIL spelling: the table is per compiler instance
+MACRO_OVERRIDES = [
+    {"name": "bswap32", "ret": "uint32_t", "params": ["uint32_t"], "rzil": "BSWAP32_ALT"},
+    {"name": "extract32", "ret": "uint32_t", "params": ["uint32_t", "int32_t", "int32_t"], "rzil": "EXTRACT32_ALT"},
+]
+MACRO_USERS = {"bswap32": ["{ RdV = bswap32(RsV); }", "{ RdV = bswap32(RsV) + 1; }"],
+               "extract32": ["{ RdV = extract32(RsV, 0, 8); }", "{ RdV = PuV ? extract32(RsV, 0, 8) : RtV; }"]}
 SUB_CALLERS = {
     "vf_add3": ["{ RdV = vf_add3(RsV, RtV); }", "{ RdV = vf_add3(RsV, 1) + vf_add3(RtV, 2); }"],
     "vf_wide": ["{ RddV = vf_wide(RsV); }"],
@@ -67,7 +74,7 @@ class HistEngine(EngineBase):
         self.shape_keys = sorted(self.shapes)
         self._focus = None
         shape_texts = [t for v in self.shapes.values() for t in v]
-        twin_texts = [t for pair in STMT_TWINS for t in pair] + MULTI_HYBRID + [WARMUP_BIG, WARMUP_ONE]
+        twin_texts = [t for pair in STMT_TWINS for t in pair] + MULTI_HYBRID + [WARMUP_BIG, WARMUP_ONE] + [t for v in MACRO_USERS.values() for t in v]
         self.extra_texts = sorted(set(self.catalogue + self.failing + self.sub_callers + gen_beh.PARSE_ERRORS + shape_texts + twin_texts))
 
     def corpus_sample(self):
@@ -145,8 +152,8 @@ class HistEngine(EngineBase):
             self._own_farm = False
 
     # ------------------------------------------------------------------ reference: first on a fresh compiler
-    def ref(self, fmt: str, name: str, part: str, subs: tuple = ()):
-        key = (fmt, name, part, subs)
+    def ref(self, fmt: str, name: str, part: str, subs: tuple = (), macros: tuple = ()):
+        key = (fmt, name, part, subs, macros)
         hit = self.refs.get(key)
         if hit is not None:
             return hit
@@ -154,7 +161,8 @@ class HistEngine(EngineBase):
         if cached is not None and cached[0] != "ok":
             hit = {"status": "exc", "exc": cached[1], "ncb": 0, "parse_error": True}
         else:
-            ops = [dict(s, op="add_sub", inst=0) for s in subs_ops(subs)]
+            ops = [dict(m, op="add_macro", inst=0) for m in MACRO_OVERRIDES if m["name"] in macros]
+            ops += [dict(s, op="add_sub", inst=0) for s in subs_ops(subs)]
             ops.append({"op": "insn", "inst": 0, "name": name, "parts": [part], "via": "transform_insn"})
             o = self.sim.execute(fmt, ops)[-1]
             if o["status"] == "ok":
